@@ -16,7 +16,7 @@
 EXTENDS Values, Json, IOUtils
 
 Rec == ndJsonDeserialize(IOEnv.TRACE)
-QSegs == {F("a"), F("b"), F("b c"), I(0), I(1), I(2), I(-1), I(-2)}
+QSegs == {F("a"), F("b"), F("b c"), I(0), I(1), I(2), I(-1), I(-2), I(-3)}
 QPaths == UNION {[1..j -> QSegs] : j \in 1..2}
 
 VARIABLES l, viols, divs, cnt
@@ -36,7 +36,8 @@ Independent(v, p, q) ==
     ELSE IF IsIndex(s) /\ IsIndex(t) THEN
        IF ~IsArr(v) THEN FALSE
        ELSE LET n == Len(v.e)  i == ResolveIndex(n, s.i)  j == ResolveIndex(n, t.i) IN
-            IF i < 0 THEN FALSE                         \* front padding shifts every element
+            IF i < 0 THEN                               \* front padding: positions counted from the END stay put
+               (t.i < 0 /\ t.i # s.i /\ -(t.i) <= n)
             ELSE IF j < 0 THEN FALSE                    \* q does not name a stable position
             ELSE IF s.i < 0 /\ t.i >= 0 /\ i # j THEN TRUE
             ELSE IF (t.i < 0) /\ i >= n THEN FALSE      \* the array grows: negative q moves
